@@ -48,13 +48,13 @@ def _own_len(tag, bits=3):
     return pt, f"LEN_{tag}"
 
 
-def _dyn_kind(name, family, charset=None, use_cal=False, slope=8, intercept=0, term=None, lead=None, core=False, no_adjust=False):
+def _dyn_kind(name, family, charset=None, use_cal=False, slope=8, intercept=0, term=None, lead=None, core=False, no_adjust=False, cal_factor=2.0):
     def build(tag, ctx):
         pts, fields = [], []
-        ref = ctx.get("ref_cal") if use_cal else ctx.get("ref_raw")
+        ref = (ctx.get("ref_cal") if cal_factor == 2.0 else None) if use_cal else ctx.get("ref_raw")
         if ref is None:
             if use_cal:
-                lpt = PType(f"LENC_T_{tag}", "Integer", IntEnc(3, default_cal=Poly(((2.0, 1),))))
+                lpt = PType(f"LENC_T_{tag}", "Integer", IntEnc(3, default_cal=Poly(((cal_factor, 1),))))
                 ref = f"LENC_{tag}"
             else:
                 lpt, ref = _own_len(tag)
@@ -204,6 +204,9 @@ def palette():
           _dyn_kind("bin-dyn(calibrated ref, x8)", "bin", use_cal=True),
           _dyn_kind("bin-dyn(calibrated ref, no adjustment)", "bin", use_cal=True, no_adjust=True),
           _dyn_kind("bin-dyn(raw ref, x1+3)", "bin", slope=1, intercept=3),
+          # the calibrated length is a multiple of one half; the adjustment multiplies it by 16 (always a whole number of bits) / by 8 plus 4
+          _dyn_kind("bin-dyn(calibrated ref in halves, x16)", "bin", use_cal=True, slope=16, cal_factor=0.5),
+          _dyn_kind("str-dyn(calibrated ref in halves, x8+4)-latin1", "str", "ISO-8859-1", use_cal=True, slope=8, intercept=4, cal_factor=0.5),
           _rest_kind(), _lookup_kind("bin-lookup", "bin", core=True)]
     # time
     K += [_simple("abstime-u32(scale,offset,units,epoch)", "AbsoluteTime", I(32), 32, core=True, unit="seconds", scale=0.5, offset=16.0, epoch="TAI"),
